@@ -344,7 +344,7 @@ func TestObjectHistory(t *testing.T) {
 		var root string
 		var helds []held
 		var log []string
-		built, shrunk, heldAcross, loaded := false, false, false, false
+		built, shrunk, heldAcross, loaded, refused := false, false, false, false, false
 		build := func(step int) {
 			n := gen.Pick(rt, sizes, "n")
 			if gen.Chance(rt, 30, "nuniform") {
@@ -404,6 +404,24 @@ func TestObjectHistory(t *testing.T) {
 				if len(helds) > 0 {
 					verify(gen.Pick(rt, helds, "held"), "later")
 				}
+			case k < 90:
+				// a load that must be refused (the node list does not fit the leaf count) leaves the tree as it is
+				wrong := len(ls) + gen.Pick(rt, []int{1, 2, 3, 4, 5, 9, 17, 64}, "wrongby")
+				if gen.Chance(rt, 40, "wrongless") && len(ls) > 2 {
+					wrong = gen.Uniform(rt, 1, len(ls)-2, "wrongcount")
+				}
+				tree := append([]string(nil), mt.GetTree()...)
+				if err := (&util.MerkleTree{}).SetTree(wrong, append([]string(nil), tree...)); err == nil {
+					break // this count happens to fit the same number of nodes: not a refusal
+				}
+				if err := mt.SetTree(wrong, tree); err == nil {
+					rt.Fatalf("%v: SetTree(%d leaves, node list of a %d-leaf tree) accepted by the built tree but refused by an empty one", log, wrong, len(ls))
+				}
+				log = append(log, fmt.Sprintf("refused SetTree(%d)", wrong))
+				refused = true
+				if mt.GetRoot() != root {
+					rt.Fatalf("%v: a refused SetTree changed the root", log)
+				}
 			default:
 				tree := append([]string(nil), mt.GetTree()...)
 				mt2 := &util.MerkleTree{}
@@ -433,6 +451,9 @@ func TestObjectHistory(t *testing.T) {
 		}
 		if loaded {
 			cls = append(cls, "continued-on-loaded-object")
+		}
+		if refused {
+			cls = append(cls, "refused-load-then-paths")
 		}
 		ev.Case(fmt.Sprint(log), nt, cls...)
 		if nt && ev.WantSample() {
